@@ -85,7 +85,7 @@ def scan_trusted(text):
     return hits
 
 
-def run_unit(repo, unit, contracts_dir, workdir, rlimit=None, extra_args=(), seed=None):
+def run_unit(repo, unit, contracts_dir, workdir, rlimit=None, extra_args=(), seed=None, use_baseline=True):
     """Returns dict: status in {ok, violation, undecided}, details..."""
     t0 = time.time()
     res = dict(unit=unit, engine='verus', status='undecided', reason='', functions=[], failures=[],
@@ -248,7 +248,7 @@ def run_unit(repo, unit, contracts_dir, workdir, rlimit=None, extra_args=(), see
 
     # baseline
     base_path = os.path.join(contracts_dir, unit + '.baseline.json')
-    baseline = json.load(open(base_path))['functions'] if os.path.exists(base_path) else None
+    baseline = json.load(open(base_path))['functions'] if (use_baseline and os.path.exists(base_path)) else None
     res['baseline'] = baseline
     if baseline is not None:
         missing = [b for b in baseline if b not in funcs]
